@@ -101,8 +101,8 @@ th!(c18_q_recv_eof_complete_closure, 12, { recv_eof(true, true, 1) });
 th!(c18_q_recv_eof_head_missing, 12, { recv_eof(false, true, 3) });
 //# funcs=RecvTransaction::process_pdu(EoF) unacknowledged; bound=tail missing (held (0,2)), closure on; stubs=S1,S2,S3,S5
 th!(c18_t_recv_eof_tail_missing_closure, 12, { recv_eof(true, true, 2) });
-//# funcs=RecvTransaction::process_pdu(EoF) unacknowledged; bound=metadata missing, nothing held; stubs=S1,S2,S3,S5
-th!(c18_q_recv_eof_no_metadata, 12, { recv_eof(false, false, 0) });
+//# funcs=RecvTransaction::process_pdu(EoF) unacknowledged; bound=metadata missing, nothing held (rule 7: with no metadata the by-value PDU makes symex walk the Metadata arm; > 8 min); stubs=S1,S2,S3,S5
+th!(c18_t_recv_eof_no_metadata, 12, { recv_eof(false, false, 0) });
 //# funcs=RecvTransaction::process_pdu(EoF) unacknowledged; bound=no data received at all for a 4-byte file, closure on; stubs=S1,S2,S3,S5
 th!(c18_t_recv_eof_nothing_held, 12, { recv_eof(true, true, 0) });
 
